@@ -1456,11 +1456,15 @@ def d9_best(ctx, idx):
         fi = idx.func('mitxgraders.baseclasses.ItemGrader.check')
         construct = 'ItemGrader.check: best alternative'
         loops = [x for x in walk_own(fi.node) if isinstance(x, ast.For)]
-        if not loops:
-            raise AnalysisError('ItemGrader.check: no loop over the answers')
-        # (A) all results collected, best chosen by max over grade_decimal
-        maxes = [c for c in walk_own(fi.node) if isinstance(c, ast.Call) and nf.callee_name(c) in ('max', 'min')
-                 and any(cm.sub_key(n) == 'grade_decimal' for n in ast.walk(c))]
+        # (A) all results collected, best chosen by max over grade_decimal (the list may come from a helper / a temporary)
+        def about_grades(c):
+            for a in c.args:
+                v = cm.value_of(fi, a) if isinstance(a, ast.Name) else a
+                if any(cm.sub_key(n) == 'grade_decimal' for n in ast.walk(v)):
+                    return True
+            return False
+        maxes = [c for c in walk_own(fi.node) if isinstance(c, ast.Call) and nf.callee_name(c) in ('max', 'min') and not c.keywords
+                 and about_grades(c)]
         if maxes:
             if all(nf.callee_name(c) == 'max' for c in maxes):
                 r.ok(construct, 'the highest grade_decimal of all graded alternatives is selected (details: C08)', lib.loc(fi, maxes[0]))
@@ -1468,6 +1472,8 @@ def d9_best(ctx, idx):
                 r.violation(construct, 'the *lowest* grade of the alternatives is selected (`%s`)' % short(maxes[0]), lib.loc(fi, maxes[0]))
             return
         # (B) running best: `if best is None or BETTER(result, best): best = result`
+        if not loops:
+            raise AnalysisError('ItemGrader.check: neither a max(...) selection over the grades nor a loop with a running best was found')
         cands = []
         for n in walk_own(fi.node):
             if isinstance(n, ast.If) and any(x is n for lp in loops for x in ast.walk(lp)):
